@@ -8,11 +8,11 @@ TB = "Trusted base: Go toolchain/runtime, stdlib SHA-1/256/512 compression funct
 CHECKS = {
  "C01": dict(
   technique="runtime reference-model monitor at the API boundary + HMAC-constructor hook (observes key/message, substitutes the digest to drive the formatting stage)",
-  text="Every GenerateHOTP execution of a seeded boundary/random workload is compared byte-for-byte with an independent RFC 4226 model (own HMAC, big-integer modulus); unsupported digits/hash values must yield an error; Param fields generation does not use (Skew, Period) take arbitrary values; through the verif hook the monitor also observes the exact (key, message) of the HMAC and pushes chosen 31-bit values through the real truncation/modulus/formatting code. One-goroutine histories (field-shifted neighbours, keys differing in one byte, adjacent-counter walks) and the js/wasm build's own copy of the derivation (compiled natively through an overlay) are judged by the same oracle. Exploration, not enumeration of 2^64 counters or 2^31 values.",
+  text="Every GenerateHOTP execution of a seeded boundary/random workload is compared byte-for-byte with an independent RFC 4226 model (own HMAC, big-integer modulus); unsupported digits/hash values must yield an error; Param fields generation does not use (Skew, Period) take arbitrary values; through the verif hook the monitor also observes the exact (key, message) of the HMAC and pushes chosen 31-bit values through the real truncation/modulus/formatting code. One-goroutine histories (field-shifted neighbours, keys differing in one byte, adjacent-counter walks) and the js/wasm build's own copy of the derivation (compiled natively through an overlay) are judged by the same oracle. Exploration, not enumeration of 2^64 counters or 2^31 values. A reduced version of the differential also runs compiled for a 32-bit target (GOARCH=386, cmd/arch386).",
   design="7/C01"),
  "C02": dict(
   technique="runtime reference-model monitor (differential against independent HOTP at floor(unix/period)) over generated instants, zones, monotonic readings and periods",
-  text="Each GenerateTOTP execution is compared with the reference HOTP at floor(unix/period); one second is rendered as 20 different time.Time values (nanoseconds, zones, monotonic reading) and each must give the reference code; step boundaries +-2 s; Skew (unused by generation) takes arbitrary values; defaults (nil params, period 0) are checked consistently across GenerateTOTP, ValidateTOTP and GenerateTOTPURL. Held on the executions produced.",
+  text="Each GenerateTOTP execution is compared with the reference HOTP at floor(unix/period); one second is rendered as 20 different time.Time values (nanoseconds, zones, monotonic reading) and each must give the reference code; step boundaries +-2 s; Skew (unused by generation) takes arbitrary values; defaults (nil params, period 0) are checked consistently across GenerateTOTP, ValidateTOTP and GenerateTOTPURL. Held on the executions produced. A reduced version of the differential also runs compiled for a 32-bit target (GOARCH=386, cmd/arch386).",
   design="7/C02"),
  "C03": dict(
   technique="runtime window-membership oracle: verdicts of ValidateHOTP compared with the reference set of codes for counters max(0,c-s)..c+s",
@@ -67,15 +67,15 @@ CHECKS = {
   design="7/C14"),
  "C15": dict(
   technique="runtime differential monitor: library registry/parser versus an independent strict RFC 6287 suite-name parser; registry exhaustive, grammar enumerated",
-  text="Every advertised name is instantiated and compared field by field with what an independent parser says the name means (list / known-suite test / lookup / registry map must agree); every string of the 1 442 880-string grammar (thorough: all; quick: every 11th + boundaries) must be rejected or accepted with exactly its meaning and report itself as its name; case variants of grammar strings are judged against a case-folding reference in a repeated sequential history (each spelling must report its own name); many-digit numeric fields must be rejected or represented exactly; ~350 malformed strings, single-bit flips, Unicode case-folding look-alikes of letters and time values whose product with 60/3600 overflows must be rejected (or, for numbers, represented exactly).",
+  text="Every advertised name is instantiated and compared field by field with what an independent parser says the name means (list / known-suite test / lookup / registry map must agree); every string of the 1 442 880-string grammar (thorough: all; quick: every 11th + boundaries) must be rejected or accepted with exactly its meaning and report itself as its name; case variants of grammar strings are judged against a case-folding reference in a repeated sequential history (each spelling must report its own name); many-digit numeric fields must be rejected or represented exactly; ~350 malformed strings, single-bit flips, Unicode case-folding look-alikes of letters and time values whose product with 60/3600 overflows must be rejected (or, for numbers, represented exactly). A reduced version of the differential also runs compiled for a 32-bit target (GOARCH=386, cmd/arch386).",
   design="7/C15"),
  "C16": dict(
   technique="runtime round-trip monitor with an independent RFC 3986 decoder of the URL text",
-  text="Generated (issuer, account, secret in every accepted spelling or arbitrary text, digits 0..255, hash, period) sets go through Generate*URL(...).String(); the text is decoded by an independent percent-decoder and by ParseOTPAuthURL(url.Parse(text)); both must return the input (so escape-twice/unescape-twice cannot pass). Hand-assembled URLs with digits/period texts over -2^63..2^64+ (also followed by ';', '%', '%zz') must fail or return exactly the number written, never the default in its place; URLs kept by the caller are re-rendered after later calls; query shapes of real links (&amp;, ';', bad escapes, repeats) are included.",
+  text="Generated (issuer, account, secret in every accepted spelling or arbitrary text, digits 0..255, hash, period) sets go through Generate*URL(...).String(); the text is decoded by an independent percent-decoder and by ParseOTPAuthURL(url.Parse(text)); both must return the input (so escape-twice/unescape-twice cannot pass). Hand-assembled URLs with digits/period texts over -2^63..2^64+ (also followed by ';', '%', '%zz') must fail or return exactly the number written, never the default in its place; URLs kept by the caller are re-rendered after later calls; query shapes of real links (&amp;, ';', bad escapes, repeats) are included. A reduced version of the differential also runs compiled for a 32-bit target (GOARCH=386, cmd/arch386).",
   design="7/C16"),
  "C17": dict(
   technique="runtime reference-model monitor: helper outputs versus independent encoders, and end-to-end OCRA codes for numeric questions versus the RFC 6287 model",
-  text="Each helper runs on boundary/random 64-bit values and on strings of length 0..300 from digit/hex/sign/letter classes and is compared with an independent encoder (value-exact, or error / documented panic for malformed text; overlong hex timestamps and signed questions by a two-answer rule); sequential fault / normalisation-neighbour histories per helper; HexInputToOCRA over all 3^5 valid/invalid/empty combinations; decimal questions of every length 1..64 plus structured values (sums of few powers of 2/10/16, byte/word aligned) through the helper and GenerateOCRA must equal the RFC value.",
+  text="Each helper runs on boundary/random 64-bit values and on strings of length 0..300 from digit/hex/sign/letter classes and is compared with an independent encoder (value-exact, or error / documented panic for malformed text; overlong hex timestamps and signed questions by a two-answer rule); sequential fault / normalisation-neighbour histories per helper; HexInputToOCRA over all 3^5 valid/invalid/empty combinations; decimal questions of every length 1..64 plus structured values (sums of few powers of 2/10/16, byte/word aligned) through the helper and GenerateOCRA must equal the RFC value. A reduced version of the differential also runs compiled for a 32-bit target (GOARCH=386, cmd/arch386).",
   design="7/C17"),
  "C18": dict(
   technique="black-box differential monitor on the real server binary over loopback: each HTTP response versus the in-process library call with exactly the request's parameters and versus the independent reference model (thorough: also a -race build of the server)",
